@@ -7,10 +7,13 @@ tag=$1; shift
 V=/tmp/verif_harm_$tag; R=/tmp/harm_repo_$tag
 rm -rf $V; git -C /repo worktree remove --force $R 2>/dev/null; git -C /repo worktree prune
 cp -r "$(dirname "$0")/.." $V
+# HARM_HEAD=1: use the committed state of /verif (the working tree may be mid-change)
+[ "${HARM_HEAD:-0}" = 1 ] && git -C $V checkout -q -- . && (cd $V/lean && lake build GtirbModel GtirbProofs driver >/dev/null 2>&1)
+PROPS=${HARM_PROPS:-C01 C02 C03 C04 C05 C06 C07 C08 C09 C10 C11 C12 C13 C14 C15 C16 C17 C18 C19}
 git -C /repo worktree add -q --detach $R HEAD
 for patch in "$@"; do
   git -C $R apply "$patch" || { echo "$patch apply-failed"; continue; }
-  for p in C01 C02 C03 C04 C05 C06 C07 C08 C09 C10 C11 C12 C13 C14 C15 C16 C17 C18 C19; do
+  for p in $PROPS; do
     out=$(VERIF_REPO=$R $V/check $p 2>&1); rc=$?
     if [ $rc -ne 0 ]; then
       echo "$patch $p rc=$rc"; echo "$out" | grep -v '^KNOWN' | tail -4
